@@ -410,7 +410,7 @@ impl ThreadPool {
 
         let num_busy = Arc::new(RwLock::new(0_usize));
 
-        for _ in 0..initial_worker {
+        for _ in 0..initial_worker.min(max_workers) {
             workers.push(Worker::new(Arc::clone(&receiver), Arc::clone(&num_busy)));
         }
 
@@ -431,7 +431,7 @@ impl ThreadPool {
         self.sender.send(Message::NewJob(job)).unwrap();
         #[cfg(varlink_rust_verif)]
         verif_hooks::probe("enqueued", self.num_busy());
-        if ((self.num_busy() + 1) >= self.workers.len()) && (self.workers.len() <= self.max_workers)
+        if ((self.num_busy() + 1) >= self.workers.len()) && (self.workers.len() < self.max_workers)
         {
             self.workers.push(Worker::new(
                 Arc::clone(&self.receiver),
